@@ -7,6 +7,8 @@ Layout (absolute paths; on the local kind below a scratch directory R):
         sub/             a real 2a branch (so control-directory verbs have positive controls)
         home/hf, home/u/ the (empty) home of user "u" (``~u`` expands INTO the served directory)
         in/ (+marker)    only in the "jail" layout: a second branch
+    /srv/pub-private/, /srv/pub.bak/   only in the "plain jail" layout, variant A: branches + canary
+                     markers next to the served directory, names extending its name
     /srv/secret          canary file                                  } variant A only;
     /srv/secretdir/      a real 2a branch + canary file ``marker``    } variant B has nothing
     /home/evil/x         canary file (``~`` and ``~evil`` expand here) } outside the served dir
@@ -39,6 +41,10 @@ CANARIES = {
     "srv/secretdir/marker": b"CANARY-77ab1e-SECRETDIR-MARKER!",
     "home/evil/x": b"CANARY-e3d2-EVIL-HOME",
 }
+SIBLING_CANARIES = {
+    "srv/pub-private/marker": b"CANARY-51b0-PUB-PRIVATE-MARKER",
+    "srv/pub.bak/marker": b"CANARY-0fe2-PUB-BAK-MARKER!!",
+}
 INSIDE_FILES = {
     "srv/pub/ok": b"public-ok",
     "srv/pub/home/hf": b"a-file-in-home",
@@ -64,10 +70,11 @@ def inside(p):
 
 class World:
 
-    def __init__(self, kind, variant, jail=False):
+    def __init__(self, kind, variant, jail=False, plain=False):
         self.kind = kind
         self.variant = variant
         self.jail = jail
+        self.plain = plain
         if kind == "vfs":
             self.store = vfs.new_store()
             self.R = ""
@@ -89,6 +96,12 @@ class World:
         if jail:
             mw.make_branch(self.base_url + "srv/pub/in", "2a")
             raw.put_bytes("srv/pub/in/marker", b"inside-marker")
+        if variant == "A" and plain:
+            # siblings of the served directory whose NAMES extend its name
+            mw.make_branch(self.base_url + "srv/pub-private", "2a")
+            raw.put_bytes("srv/pub-private/marker", SIBLING_CANARIES["srv/pub-private/marker"])
+            mw.make_branch(self.base_url + "srv/pub.bak", "2a")
+            raw.put_bytes("srv/pub.bak/marker", SIBLING_CANARIES["srv/pub.bak/marker"])
         if variant == "A":
             for d in ("home", "home/evil"):
                 raw.mkdir(d)
@@ -120,6 +133,10 @@ class World:
         if self.factory.base_path is None:
             raise HarnessError("no base path: the userdir filter is not installed")
         self.backing = self.factory.transport
+        if plain:
+            # the jail root is a plain (non-chroot) transport, as SmartServerRequestHandler, the WSGI
+            # application or SmartTCPServer get when they are constructed on one
+            self.backing = self.bottom
         self.medium = LoopMedium("bzr://c31/", self.backing)
         self.client = smart_client._SmartClient(self.medium)
         self.pristine = self.snapshot()
@@ -205,7 +222,7 @@ class World:
                 self.rebuilds = getattr(self, "rebuilds", 0) + 1
                 n = self.rebuilds
                 self.close()
-                self.__init__(self.kind, self.variant, self.jail)
+                self.__init__(self.kind, self.variant, self.jail, self.plain)
                 self.rebuilds = n
             return
         self._write_local(snap, only_inside)
@@ -507,4 +524,4 @@ def blob(outcome):
 
 def leaked(outcome):
     b = blob(outcome)
-    return [k for k, c in CANARIES.items() if c in b]
+    return [k for k, c in list(CANARIES.items()) + list(SIBLING_CANARIES.items()) if c in b]
